@@ -2,7 +2,7 @@ import CCVerif.Model.Parser
 import CCVerif.Model.AstQuery
 import CCVerif.Lemmas.ParserRangesLex
 import CCVerif.Lemmas.ParserShapeTop
-import CCVerif.Lemmas.RangeExactTop
+import CCVerif.Lemmas.RangeExactPos
 /-!
 # C06 — the parser builds the grammar's tree; node ranges delimit their source text
 
@@ -25,9 +25,14 @@ token payloads, non-empty index lists and set / logic / declaration positions of
 `e`, `[args] e`, `X:==`, `X:==…`, `S::=…`; second invariant over the twelve parser functions, on the RAW trees
 with their bracket nodes, `Lemmas/ParserShape*.lean`); `parse_gives_WfTop_partial` / `_counterexample`: C03's
 narrower `WfTop` misses exactly `S::=rhs` with a right-hand side that is not a set expression.
-NOT proved: the demand "every admissible rendering of a tree parses to that tree with the renderer's
-ranges" (`Spec.Renders` of DESIGN.md, `range_exact`) lives in the harness (`harness/syntax_gen.hpp`,
-`render`) — compared on every generated rendering by the correspondence run (`c06 tree`).
+`range_exact` is proved in its local form for the whole grammar (`range_exact_tiled`, `range_exact_positions`:
+every node's range is tiled exactly by the tokens of its own production, its innermost redundant parentheses and
+its children; third invariant over the twelve parser functions, `Lemmas/RangeExact*.lean`) and the whitespace
+freedom of `parse_renders` (`parse_renders_partial`, `Lemmas/ParsePosMap.lean`).
+NOT proved: "every admissible rendering WITH REDUNDANT PARENTHESES parses, and to the rendered tree" (the
+completeness half of `Spec.Renders` of DESIGN.md beyond the canonical rendering of C05 `parse_print_fragment3`)
+lives in the harness (`harness/syntax_gen.hpp`, `render`) — compared on every generated rendering by the
+correspondence run (`c06 tree`).
 -/
 namespace CCVerif.C06
 open CCVerif.Syntax CCVerif.Generated CCVerif.Lexer CCVerif.Parser CCVerif.AstQuery CCVerif.Strings
@@ -746,8 +751,8 @@ example :
 
 /-- **range_exact_tiled** (the local form of `range_exact`, WHOLE grammar, every token stream): number the
 tokens (`RangeExact.Idx 0 ts`: the `k`-th token has `lo = hi = k`, so a node's range `[lo, hi]` is "first token
-index, last token index" — positions and the gaps between tokens are abstracted away; the parser never looks at
-positions, `Lemmas/ParseErase.lean`). Then the tree `parseToks` returns is `stripBrackets raw` (`CreateSyntaxTree`:
+index, last token index" — positions and the gaps between tokens are abstracted away and put back by
+`range_exact_positions`). Then the tree `parseToks` returns is `stripBrackets raw` (`CreateSyntaxTree`:
 a bracket node `PUNC_PL` is replaced by its operand) of a raw tree that is `RangeExact.Tight`: at EVERY node the
 range consists of exactly the tokens of the node's own production and the ranges of its children, in order, with
 nothing else in between — `Sep s kids e` = first child starts at token `s`, exactly one token between
@@ -792,6 +797,49 @@ example :
        .node .UNION .none 8 12 [.node .ID_LOCAL (.text "c") 9 9 [], .node .ID_LOCAL (.text "d") 11 11 []]]) &&
       t.lo == 0 && t.hi == 12 && (t.kids.map (fun k => (k.lo, k.hi))) == [(1, 5), (8, 12)]) = some true := by
   refine ⟨by simp [RangeExact.Idx], ?_⟩
+  decide +kernel
+
+/-- **parse_renders_partial** (the WHITESPACE freedom of `parse_renders`, whole grammar; NOT the freedom of
+redundant parentheses, for which only `range_exact_tiled` — what the tree and the ranges are WHEN such a rendering
+parses — and closed instances are proved): moving the tokens of a stream apart or together in any way (every
+`lo` mapped by `pl`, every `hi` by `ph`, arbitrary functions — any amount of whitespace / newlines between tokens, even
+overlapping or unordered positions) changes nothing but the positions: the stream parses iff the original does, to
+the same tree, every node's `lo` / `hi` moved by the same maps. (`Lemmas/ParsePosMap.lean`: the twelve parser
+functions and all semantic actions only copy positions.) -/
+theorem parse_renders_partial (pl ph : Int → Int) (ts : List LTok) :
+    parseToks (ts.map (PN.mp pl ph)) = (parseToks ts).map (PN.mpA pl ph) :=
+  PN.parseToks_natural ts
+
+/-- **range_exact_positions** (`range_exact` for EVERY positioned token stream, whole grammar): the tree `t` that
+`parseToks` returns on `ts` is the tree `t0` of the numbered stream (`k`-th token at `[k, k]`) with the positions put
+back — a node that spans the tokens number `a … b` has the range `[lo of token a, hi of token b)`
+(`loAt ts 0 a`, `hiAt ts 0 b`) — and `t0 = stripBrackets raw` for a raw tree that is tiled exactly
+(`RangeExact.Tight`, see `range_exact_tiled`): `a` is the first and `b` the last token of the node's own span (its
+production's tokens, its children's spans, its innermost redundant parentheses), whatever lies between the tokens. -/
+theorem range_exact_positions (ts : List LTok) (t : Ast) (h : parseToks ts = some t) :
+    ∃ raw t0 : Ast, RangeExact.Tight raw ∧ raw.lo = 0 ∧ stripBrackets raw = some t0 ∧
+      parseToks (RangeExact.number 0 ts) = some t0 ∧
+      t = PN.mpA (RangeExact.loAt ts 0) (RangeExact.hiAt ts 0) t0 := by
+  rw [RangeExact.parseToks_number] at h
+  cases hp : parseToks (RangeExact.number 0 ts) with
+  | none => rw [hp] at h; cases h
+  | some t0 =>
+    rw [hp] at h
+    obtain ⟨raw, n1, n2, _, n4⟩ := range_exact_tiled _ t0 (RangeExact.idx_number ts 0) hp
+    exact ⟨raw, t0, n1, n2, n4, rfl, by cases h; rfl⟩
+
+/-- non-vacuity of `range_exact_positions` / `parse_renders_partial`: `(a + b)  *c` with gaps (tokens at `[0,1) [1,2)
+[3,4) [5,6) [6,7) [9,10) [10,11)`): the numbered stream gives `*` over tokens 0…6 and `+` over 0…4 (its own
+parentheses), so the positioned tree has `*` at `[0, 11)` and `+` at `[0, 7)`; the parentheses leave no trace. -/
+example :
+    let ts : List LTok := [⟨.PUNC_PL, .none, 0, 1⟩, ⟨.ID_LOCAL, .text "a", 1, 2⟩, ⟨.PLUS, .none, 3, 4⟩,
+      ⟨.ID_LOCAL, .text "b", 5, 6⟩, ⟨.PUNC_PR, .none, 6, 7⟩, ⟨.MULTIPLY, .none, 9, 10⟩, ⟨.ID_LOCAL, .text "c", 10, 11⟩,
+      ⟨.END, .none, 11, 11⟩]
+    ((parseToks (RangeExact.number 0 ts)).map (fun t => (t.id, t.lo, t.hi, t.kids.map (fun k => (k.id, k.lo, k.hi)))) ==
+      some (.MULTIPLY, 0, 6, [(.PLUS, 0, 4), (.ID_LOCAL, 6, 6)]) &&
+    (parseToks ts).map (fun t => (t.id, t.lo, t.hi, t.kids.map (fun k => (k.id, k.lo, k.hi)))) ==
+      some (.MULTIPLY, 0, 11, [(.PLUS, 0, 7), (.ID_LOCAL, 10, 11)]) &&
+    RangeExact.loAt ts 0 6 == 10 && RangeExact.hiAt ts 0 4 == 7) = true := by
   decide +kernel
 
 end CCVerif.C06
